@@ -15,7 +15,7 @@ GROUP = dict(
     theory=['base.rs', 'split.rs'],
     rlimit=100,
     uses='use core::cmp::Ordering;\nuse core::marker::PhantomData;',
-    canary="    axiom_string_from(); broadcast use axiom_ascii_to_lower; axiom_pct('a'); axiom_dec_enc(SetId::Path, seq!['a']);",
+    canary="    axiom_string_from(); broadcast use axiom_ascii_to_lower; axiom_pct('a'); axiom_dec_enc(SetId::Path, seq!['a']); axiom_lower_no_comma('a');",
     # vacuity guard: the hypotheses of the theorem, with `ensures false` -- must be REJECTED
     vacuity='''
 pub proof fn verif_vacuity_c01_must_fail<T: FromStr + PurlShape>(s: Seq<char>, g: GenericPurl<T>, r2: Result<GenericPurl<T>, <T as PurlShape>::Error>)
@@ -23,20 +23,18 @@ pub proof fn verif_vacuity_c01_must_fail<T: FromStr + PurlShape>(s: Seq<char>, g
     requires
         plain_shape::<T>(),
         parse_post::<T>(s, Ok::<GenericPurl<T>, <T as PurlShape>::Error>(g)),
-        !has_key(g.parts.qualifiers.qualifiers@, checksum_key()),
         parse_post::<T>(canon_spec(g.package_type.type_text(), g.parts), r2),
     ensures false
 { }
 pub proof fn verif_vacuity_c01_typed_must_fail(s: Seq<char>, g: GenericPurl<PackageType>, r2: Result<GenericPurl<PackageType>, PackageError>)
     requires
         parse_post::<PackageType>(s, Ok::<GenericPurl<PackageType>, PackageError>(g)),
-        !has_key(g.parts.qualifiers.qualifiers@, checksum_key()),
         parse_post::<PackageType>(canon_spec(g.package_type.type_text(), g.parts), r2),
     ensures false
 { }
 pub proof fn verif_vacuity_c10_typed_must_fail(g: GenericPurl<PackageType>, t1: PackageType, p1: PurlParts, fr: Result<(), PackageError>, r: Result<GenericPurl<PackageType>, PackageError>)
     requires
-        handed_out_typed(g), !has_key(g.parts.qualifiers.qualifiers@, checksum_key()),
+        handed_out_typed(g),
         PackageType::finish_rel(g.package_type, g.parts, t1, p1, fr), build_post::<PackageType>(t1, p1, fr, r),
     ensures false
 { }
@@ -50,6 +48,7 @@ pub proof fn verif_vacuity_c10_typed_must_fail(g: GenericPurl<PackageType>, t1: 
         dict(id='theory.inverse2', kind='raw', text=_c.lemmas_contract_only(_c.theory_text('inverse2.rs'), 'inverse')),
         dict(id='theory.inverse3', kind='raw', text=_c.lemmas_contract_only(_c.theory_text('inverse3.rs'), 'inverse')),
         dict(id='theory.inverse4', kind='raw', text=_c.lemmas_contract_only(_c.theory_text('inverse4.rs'), 'inverse')),
+        dict(id='theory.ckfix', kind='raw', text=_c.lemmas_contract_only(_c.theory_text('ckfix.rs'), 'ckfix')),
         dict(id='theory.c01', kind='raw', text=_c.theory_text('c01.rs')),
         # the PackageType instance: the enum, its error, the rule vocabulary and idempotence lemmas, the impl of PurlShape (contracts proved in group pkgtype)
         _c.unit_of('pkgtype', 'T.PackageType'), _c.unit_of('pkgtype', 'T.PackageError'), _c.unit_of('pkgtype', 'T.UnsupportedPackageType'),
